@@ -23,7 +23,9 @@ import PsutilModel.Proofs.C04Fine
 import PsutilModel.Proofs.C04Flag
 import PsutilModel.Proofs.C04Keep
 import PsutilModel.Proofs.C04Status
+import PsutilModel.Proofs.C04Scan
 import PsutilModel.Model.C04Gen
+import PsutilModel.Model.C04ScanGen
 namespace Psutil.C04
 open Spec
 
@@ -1565,5 +1567,194 @@ theorem C04_tgid_prefix_match_counterexample :
   refine ⟨(StatusText.wfb_iff _).mp (by decide), hl, ?_, ?_, by decide⟩
   · rw [hl]; decide
   · rw [hl]; decide
+
+/-! ## seeded round 5c — a listed process changes state DURING its own `as_dict()` scan
+
+    Statement clause: "process_iter() yields one Process per listed PID … and silently skips processes that
+    VANISH while iterating", quantified over "process-table changes (…, zombie, …) between and DURING
+    iterations". A zombie is still listed. `Model/C04Scan.lean` takes one visit apart into the OS accesses of
+    the getters inside the one `oneshot()` block; the theorems quantify over the state of the process at EVERY
+    access instant (`ScanWorld.life`, one-way: alive → zombie → gone), over what a zombie's files give
+    (`zres`: content, empty, ESRCH, ENOENT, EACCES — per file, any kernel), over the errno a gone process gives
+    (`gesrch`), over denied files, over the requested names and where each getter's value comes from (`srcs`).
+    What ties them to the source: `cfg_scan_code` (the statements of `wrap_exceptions`, `_is_zombie`,
+    `_raise_if_zombie`, `_readlink`), `cfg_zombie_probe` (`_is_zombie` makes its OWN read of `stat`, it does not
+    answer from the block's cache), `cfg_memo_readers`, `cfg_scan_sources`. -/
+
+/-- **obligation.** the code `classify` / `isZombie` / `getter … (.link _)` transcribe, statement by statement -/
+theorem cfg_scan_code :
+    Gen.C04.scanCode =
+      ["wrapper|0:pid, name = (self.pid, self._name)", "wrapper|0:try:", "wrapper|1:return fun(self, *args, **kwargs)",
+       "wrapper|0:except PermissionError as err:", "wrapper|1:raise AccessDenied(pid, name) from err",
+       "wrapper|0:except ProcessLookupError as err:", "wrapper|1:self._raise_if_zombie()",
+       "wrapper|1:raise NoSuchProcess(pid, name) from err", "wrapper|0:except FileNotFoundError as err:",
+       "wrapper|1:self._raise_if_zombie()", "wrapper|1:if not os.path.exists(f'{self._procfs_path}/{pid}/stat'):",
+       "wrapper|2:raise NoSuchProcess(pid, name) from err", "wrapper|1:raise",
+       "_is_zombie|0:try:", "_is_zombie|1:data = bcat(f'{self._procfs_path}/{self.pid}/stat')",
+       "_is_zombie|0:except OSError:", "_is_zombie|1:return False", "_is_zombie|0:else:",
+       "_is_zombie|1:rpar = data.rfind(b')')", "_is_zombie|1:status = data[rpar + 2:rpar + 3]",
+       "_is_zombie|1:return status == b'Z'",
+       "_raise_if_zombie|0:if self._is_zombie():", "_raise_if_zombie|1:raise ZombieProcess(self.pid, self._name, self._ppid)",
+       "_readlink|0:try:", "_readlink|1:return readlink(path)", "_readlink|0:except (FileNotFoundError, ProcessLookupError):",
+       "_readlink|1:if os.path.lexists(f'{self._procfs_path}/{self.pid}'):", "_readlink|2:self._raise_if_zombie()",
+       "_readlink|2:if fallback is not UNSET:", "_readlink|3:return fallback", "_readlink|1:raise"] := by decide
+
+/-- **obligation.** `_is_zombie()` reads `/proc/<pid>/stat` itself, at the instant it is asked: it mentions no
+    memoized reader (directly, through `__wrapped__`, or otherwise). An `_is_zombie()` that answers from the
+    `oneshot()` cache changes this fact, stops the build, and makes the driver run the `.memo` model
+    (`C04_scan_stale_probe_counterexample` shows what that one does). -/
+theorem cfg_zombie_probe : Gen.C04.zombieProbe = "read:stat" ∧ scanProbe = .fresh := by decide
+
+/-- **obligation.** the memoized readers and the file each reads; `oneshot_enter()` activates exactly them -/
+theorem cfg_memo_readers :
+    Gen.C04.memoReaders = [("_parse_stat_file", "stat"), ("_read_smaps_file", "smaps"), ("_read_status_file", "status")]
+    ∧ Gen.C04.oneshotActivates = Gen.C04.memoReaders.map (·.1) := by decide
+
+/-- **obligation.** where the getters the correspondence drives get their value from -/
+theorem cfg_scan_sources :
+    scanSrcs =
+      [("cmdline", .readProbe "cmdline"), ("cpu_num", .memo "stat"), ("cpu_times", .memo "stat"), ("create_time", .obj),
+       ("cwd", .link "cwd"), ("environ", .read "environ"), ("gids", .memo "status"), ("io_counters", .read "io"),
+       ("memory_info", .read "statm"), ("num_ctx_switches", .memo "status"), ("num_threads", .memo "status"),
+       ("pid", .obj), ("status", .memo "stat"), ("terminal", .memo "stat"), ("uids", .memo "status")] := by decide
+
+/-- **the clause, for one visit.** Whatever names are requested and wherever their values come from, whenever
+    the process turns zombie / is reaped relative to the accesses of the scan, whatever a zombie's files
+    answer: the visit (with the fresh zombie probe) skips the PID only if the process was GONE at one of the
+    instants the visit itself looked at it; otherwise it yields with exactly the requested keys; no exception
+    comes out of it. `cold` = the object is created by this visit. -/
+theorem C04_scan_listed_never_skipped (srcs : List (String × Src)) (w : ScanWorld) (hm : OneWay w.life)
+    (cold : Bool) (names : List String) :
+    VisitOk w.life (visitScan .fresh srcs w cold names).1.i names (visitScan .fresh srcs w cold names).2 := by
+  cases cold with
+  | false => exact scan_visit_ok srcs w hm names ScanSt.init
+  | true =>
+    obtain ⟨g1, g2, g3⟩ := getter_sound w hm ScanSt.init (.read statFile)
+    have hv := scan_visit_ok srcs w hm names (getter Probe.fresh w ScanSt.init (Src.read statFile)).1
+    unfold visitScan
+    simp only [if_true]
+    cases hg : (getter Probe.fresh w ScanSt.init (Src.read statFile)).2 with
+    | nsp =>
+      obtain ⟨i, _, b, c⟩ := g2 hg
+      exact ⟨i, b, c⟩
+    | fnf => exact absurd hg g3
+    | val => exact hv
+    | ad => exact hv
+    | zombie => exact hv
+
+/-- the same for the code as it is (`scanProbe`, `scanSrcs` come from the translator facts) -/
+theorem C04_scan_listed_never_skipped_cfg (w : ScanWorld) (hm : OneWay w.life) (cold : Bool) (names : List String) :
+    VisitOk w.life (visitScan scanProbe scanSrcs w cold names).1.i names (visitScan scanProbe scanSrcs w cold names).2 := by
+  rw [cfg_zombie_probe.2]; exact C04_scan_listed_never_skipped scanSrcs w hm cold names
+
+/-- the same when the CALLER holds `with proc.oneshot():` on the cached object and fetched `held` in it before
+    iterating (at earlier instants of the same life): whatever the block's cache holds by then, the visit skips
+    the PID only if the process was gone at one of the instants it (or the caller) looked at it -/
+theorem C04_scan_held_listed_never_skipped (srcs : List (String × Src)) (w : ScanWorld) (hm : OneWay w.life)
+    (held names : List String) :
+    VisitOk w.life (visitScanHeld .fresh srcs w held names).1.i names (visitScanHeld .fresh srcs w held names).2 :=
+  scan_visit_ok srcs w hm names (heldReads .fresh srcs w ScanSt.init held)
+
+/-- **a zombie is still listed.** A process that stays in the table during the whole visit — alive, or turning
+    into a zombie at ANY point of the scan — is yielded, with exactly the requested keys. -/
+theorem C04_scan_zombie_still_yielded (srcs : List (String × Src)) (w : ScanWorld) (hm : OneWay w.life)
+    (hl : ∀ i, Listed (w.life i)) (cold : Bool) (names : List String) :
+    ∃ items, (visitScan .fresh srcs w cold names).2 = .yielded items ∧ items.map (·.1) = names := by
+  have h := C04_scan_listed_never_skipped srcs w hm cold names
+  cases hr : (visitScan .fresh srcs w cold names).2 with
+  | yielded items => rw [hr] at h; exact ⟨items, rfl, h⟩
+  | skipped => rw [hr] at h; obtain ⟨i, _, hi⟩ := h; exact absurd hi (hl i)
+  | exc c => rw [hr] at h; exact absurd h id
+
+/-- **the one-step abstraction of the history machine is this model when nothing changes during the visit**
+    (`asDictLoop`: a name answered from the object never fails, any other name fails iff the process directory
+    is gone): a cached PID is skipped iff the process is gone and some requested getter looks at it. -/
+theorem C04_scan_steady (srcs : List (String × Src)) (l : Life) (zres : String → Rd) (gesrch : Nat → Bool)
+    (deny aempty : String → Bool) (names : List String) :
+    (visitScan .fresh srcs (steady l zres gesrch deny aempty) false names).2 = .skipped
+      ↔ (l = .gone ∧ names.any (fun nm => (srcOf srcs nm).looks) = true) := by
+  have hm := steady_oneWay l zres gesrch deny aempty
+  constructor
+  · intro h
+    have hv := C04_scan_listed_never_skipped srcs (steady l zres gesrch deny aempty) hm false names
+    rw [h] at hv
+    obtain ⟨i, _, hi⟩ := hv
+    have hl : l = .gone := hi
+    refine ⟨hl, ?_⟩
+    subst hl
+    have hg := scanLoop_gone .fresh srcs (steady .gone zres gesrch deny aempty) (fun _ => rfl) names ScanSt.init [] rfl
+    have h' : (scanLoop .fresh srcs (steady .gone zres gesrch deny aempty) ScanSt.init names []).2.visit = .skipped := h
+    rw [hg] at h'
+    by_cases ha : names.any (fun nm => (srcOf srcs nm).looks) = true
+    · exact ha
+    · rw [if_neg ha] at h'; simp [ScanOut.visit] at h'
+  · rintro ⟨hl, ha⟩
+    subst hl
+    have hg := scanLoop_gone .fresh srcs (steady .gone zres gesrch deny aempty) (fun _ => rfl) names ScanSt.init [] rfl
+    show (scanLoop .fresh srcs (steady .gone zres gesrch deny aempty) ScanSt.init names []).2.visit = .skipped
+    rw [hg, if_pos ha]; rfl
+
+/-- the world of seeded change C04-6: alive at the first access of the scan, a zombie from the second on -/
+def zombieAfterFirst (r : Rd) : ScanWorld :=
+  ⟨fun i => if i = 0 then .alive else .zombie, fun f => if f == "environ" then r else .ok, fun _ => false, fun _ => false,
+   fun _ => false⟩
+
+theorem zombieAfterFirst_listed (r : Rd) : OneWay (zombieAfterFirst r).life ∧ ∀ i, Listed ((zombieAfterFirst r).life i) := by
+  constructor
+  · intro i j hij
+    show (if i = 0 then Life.alive else Life.zombie).rank ≤ (if j = 0 then Life.alive else Life.zombie).rank
+    by_cases hi : i = 0 <;> by_cases hj : j = 0 <;> simp [hi, hj, Life.rank]
+    omega
+  · intro i
+    show (if i = 0 then Life.alive else Life.zombie) ≠ Life.gone
+    by_cases hi : i = 0 <;> simp [hi]
+
+/-- **why `cfg_zombie_probe` is an obligation** (seeded change C04-6). `process_iter(attrs=['status','environ'])`
+    on a cached PID that turns zombie between the two reads, on a kernel where a zombie's `environ` gives ESRCH:
+    the code as it is yields the PID with `environ = ad_value`; an `_is_zombie()` answering from the block's
+    memoized `stat` (read while the process was alive) says "not a zombie", the ESRCH becomes NoSuchProcess and
+    the still-listed PID is SKIPPED (cache entry dropped); with ENOENT instead (a zombie's `cwd`, `exe`) the
+    stale probe lets the FileNotFoundError out of `process_iter()`. The last two: the caller holds
+    `with proc.oneshot():`, called `status()` while the process was alive, then iterates with `attrs=['environ']`. -/
+theorem C04_scan_stale_probe_counterexample :
+    (visitScan .fresh [("status", .memo "stat"), ("environ", .read "environ")] (zombieAfterFirst .esrch) false
+        ["status", "environ"]).2 = .yielded [("status", false), ("environ", true)]
+    ∧ (visitScan .memo [("status", .memo "stat"), ("environ", .read "environ")] (zombieAfterFirst .esrch) false
+        ["status", "environ"]).2 = .skipped
+    ∧ (visitScan .memo [("status", .memo "stat"), ("environ", .read "environ")] (zombieAfterFirst .enoent) false
+        ["status", "environ"]).2 = .exc "FileNotFoundError"
+    ∧ (visitScanHeld .fresh [("status", .memo "stat"), ("environ", .read "environ")] (zombieAfterFirst .esrch)
+        ["status"] ["environ"]).2 = .yielded [("environ", true)]
+    ∧ (visitScanHeld .memo [("status", .memo "stat"), ("environ", .read "environ")] (zombieAfterFirst .esrch)
+        ["status"] ["environ"]).2 = .skipped
+    ∧ (∀ i, Listed ((zombieAfterFirst .esrch).life i)) := by
+  refine ⟨by decide, by decide, by decide, by decide, by decide, (zombieAfterFirst_listed _).2⟩
+
+/-- **one whole iteration, the scan dimension included.** One thread at statement granularity (`fineRun`:
+    any schedule of other threads, any table changes between its statements) whose every `as_dict` answer is
+    the access-granularity scan of THAT PID's process in its own world `W pid` (any one-way life, any kernel
+    flavour): run to its end, every PID of the listing is yielded, or `Process(pid)` did not find the new PID,
+    or the process was gone at one of the instants its own scan looked at it. -/
+theorem C04_fine_complete_scan (c : Cfg) (rd : FReads) (base : Nat) (ts : List FTouch)
+    (srcs : List (String × Src)) (names : List String) (W : Nat → ScanWorld) (hW : ∀ q, OneWay (W q).life)
+    (hk : rd.listing.Nodup) (hp : NodupKeys rd.copy) (hne : rd.listing ≠ [])
+    (hd : c.drainFirst = true ∨ rd.popped = []) (hpe : rd.popErr = true → c.popGuarded = true)
+    (hlen : (finePrologue c rd).2.length ≤ ts.length)
+    (hfill : ∀ x ∈ (finePrologue c rd).2.zip ts,
+      x.2.fill = false → (visitScan .fresh srcs (W x.1.1) false names).2 = .skipped) :
+    ∀ q ∈ rd.listing, q ∈ (fineRun c rd false true base ts).yields.map (·.1)
+      ∨ (∃ x ∈ (finePrologue c rd).2.zip ts, x.1.1 = q ∧ x.1.2 = none ∧ x.2.create = none)
+      ∨ Vanished (W q).life (visitScan .fresh srcs (W q) false names).1.i := by
+  intro q hq
+  rcases C04_fine_complete c rd false true base ts hk hp hne hd hpe (by simp) hlen q hq with h | ⟨x, hx, hxq, hn⟩
+  · exact Or.inl h
+  · rcases hn with ⟨h1, h2⟩ | ⟨_, h2⟩
+    · exact Or.inr (Or.inl ⟨x, hx, hxq, h1, h2⟩)
+    · right; right
+      have hs := hfill x hx h2
+      rw [hxq] at hs
+      have hv := C04_scan_listed_never_skipped srcs (W q) (hW q) false names
+      rw [hs] at hv
+      exact hv
 
 end Psutil.C04
